@@ -45,6 +45,7 @@ def chordReHandler : Handler := fun fn args =>
   | _, _ => none
 
 def handlers : List Handler := [chordReHandler, Scores.handler, Matching.handler, HitMetric.handler, Chord.handler, Multipitch.handler, Beat.handler, Melody.handler, Intervals.handler, Pattern.handler, Onset.handler, Boundary.handler, Tempo.handler, Alignment.handler, IO.handler, Mir.Gen.IOLoad.handler, Transcription.handler, Hierarchy.handler, Separation.handler, SeparationLS.handler, EvalProg.handler Gen.evalPrograms Gen.sigs EvalSpec.specs, Validate.handler, Segment.handler, ChordCompare.handler, ChordEval.handler, Key.handler, Effects.handlerFor MirGen.Effects.prog MirGen.Effects.names MirGen.Effects.table, Mir.Gen.Scalars.handler]
+def handlers : List Handler := [chordReHandler, Scores.handler, Matching.handler, HitMetric.handler, Chord.handler, Multipitch.handler, Beat.handler, Melody.handler, Intervals.handler, Pattern.handler, Onset.handler, Boundary.handler, Tempo.handler, Alignment.handler, IO.handler, Transcription.handler, Hierarchy.handler, Separation.handler, SeparationLS.handler, EvalProg.handler Gen.evalPrograms Gen.sigs EvalSpec.specs, Validate.handler, Segment.handler, ChordCompare.handler, ChordEval.handler, Key.handler, Effects.handlerFor MirGen.Effects.prog MirGen.Effects.names MirGen.Effects.table, Mir.Gen.Scalars.handler, Mir.Gen.SegIndex.handler]
 
 def dispatch (fn : String) (args : List Val) : Option (Py Val) :=
   -- `gen.chordfn` (MirGen/ChordFns.lean) is asked first: falling through the whole list costs ~15 ms per request
